@@ -321,8 +321,8 @@ def ast_digest(fn):
                 inner = n.get("e")
                 while isinstance(inner, dict) and inner.get("k") == "Paren":
                     inner = inner.get("e")
-                if k == "Paren" or (k == "Cast" and not n.get("impl") and isinstance(inner, dict) and inner.get("t") == n.get("t")):
-                    t = None      # a cast to the type the operand already has, parentheses
+                if k == "Paren" or (k == "Cast" and not n.get("impl") and isinstance(inner, dict) and inner.get("t") == n.get("t")) or (k == "Cast" and n.get("impl")):
+                    t = None      # a cast to the type the operand already has, parentheses, implicit conversions
                 if t:
                     toks.append(t)
             for key in sorted(n):
@@ -398,7 +398,29 @@ def flag_rows(facts):
                 masks = [t for t in _split_nodes(var["init"]) if is_mask(t)]
                 if masks:
                     cands.append(var)
+
+        def is_mask(x):
+            x = strip_all(x)
+            if x.get("k") == "Un" and x.get("op") == "!":
+                return is_mask(x["e"])
+            if x.get("k") == "Bin" and x.get("op") in ("==", "!=", ">", "<") and ("v" in strip(x["l"]) or "v" in strip(x["r"])):
+                return is_mask(x["r"] if "v" in strip(x["l"]) else x["l"])
+            if x.get("k") == "Cond":
+                return is_mask(x["c"])
+            return x.get("k") == "Bin" and x.get("op") == "&" and (("v" in strip(x["l"]) and strip_all(x["r"]).get("k") != "Bin") or ("v" in strip(x["r"]) and strip_all(x["l"]).get("k") != "Bin"))
+
+        def vc(n):
+            # a flag tested in place (`if (bytes[FLAGS] & MASK)`) is the same decoding as one that is given a name first
+            if n.get("k") == "If" and n.get("c") is not None:
+                terms = [t for t in _split_nodes(n["c"]) if is_mask(t)]
+                direct = [t for t in terms if not (strip_all(t).get("k") == "Ref")]
+                for dterm in direct:
+                    # only tests of image bytes / of values read from the image - not of object state, loop counters, sizes
+                    t0 = ctext(fn, dterm).replace(" ", "")
+                    if re.search(r"\((param#\d+\[[^\]]*\]|read#\d+<unsignedchar>|local<unsignedchar>#\d+)&\d+\)", t0):
+                        cands.append({"init": dterm, "loc": n.get("loc"), "n": None, "t": "bool", "inline": True})
         walk(fn["body"], v)
+        walk(fn["body"], vc)
         cands.sort(key=_loc_key)
         kind = field_validation._kind(fn) or ""
         for i, var in enumerate(cands):
